@@ -359,7 +359,7 @@ def generate(R, tier, focus):
             extra.append(ev)
         world['obs_history'] = {'extra': extra, 'warm': R.sample(['magnitude_counts', 'get_magnitudes', 'n_events', 'bbox'],
                                                                   R.randint(0, 3)),
-                                'update_stats': R.random() < 0.5}
+                                'update_stats': R.random() < 0.5, 'copy_first': R.random() < 0.4}
     return world
 
 
@@ -678,6 +678,10 @@ def _execute(scn, ctx, rng, collect_results):
                                    as_array=(scn.get('initial_rng', 0) + oi_) % 3 == 0)
             if hist:
                 ctx.count('cfg:observed_catalog_with_history')
+                if hist.get('copy_first') and any(e_[6] == 'outside' for e_ in hist['extra']):
+                    # ... or it is the copy an earlier non-in-place spatial cut returned, summarised and then cut further
+                    c = c.filter_spatial(fcs[k].region, in_place=False)
+                    call(lambda: c.spatial_counts())
                 for w_ in hist['warm']:
                     call({'magnitude_counts': lambda: c.magnitude_counts(), 'get_magnitudes': lambda: c.get_magnitudes(),
                           'n_events': lambda: c.get_number_of_events(), 'bbox': lambda: c.get_bbox()}[w_])
